@@ -10,7 +10,9 @@ only = sys.argv[2:]
 RELATED = {'cassandra/pool.py': 'C09 C12 C13 C15 C20 C45', 'cassandra/connection.py': 'C05 C06 C09 C10 C12 C13 C20 C41 C44 C47',
            'cassandra/cluster.py': 'C09 C13 C14 C15 C16 C17 C18 C19 C20 C25 C41 C42 C43 C45 C46', 'cassandra/protocol.py': 'C03 C04 C16 C18 C39 C46',
            'cassandra/policies.py': 'C21 C22 C23 C24', 'cassandra/util.py': 'C01 C02 C33 C34', 'cassandra/cqltypes.py': 'C01 C02 C28', 'cassandra/query.py': 'C30 C38 C39 C46',
-           'cassandra/metadata.py': 'C08 C22 C26 C27', 'cassandra/io/asyncioreactor.py': 'C11', 'cassandra/io/twistedreactor.py': 'C11'}
+           'cassandra/metadata.py': 'C08 C22 C26 C27', 'cassandra/io/asyncioreactor.py': 'C11', 'cassandra/io/twistedreactor.py': 'C11',
+           'cassandra/marshal.py': 'C01 C02', 'cassandra/segment.py': 'C06', 'cassandra/murmur3.py': 'C08', 'cassandra/concurrent.py': 'C32', 'cassandra/timestamps.py': 'C31',
+           'cassandra/encoder.py': 'C29', 'cassandra/cqlengine/statements.py': 'C35 C37 C38', 'cassandra/cqlengine/query.py': 'C35 C37 C38', 'cassandra/cqlengine/columns.py': 'C36 C38'}
 ALL_RELATED = os.environ.get('BENIGN_RELATED') == '1'       # also run the checks of the other properties that put the changed file under contract
 
 
